@@ -1201,6 +1201,10 @@ class ExprGen:
         if op in ("mod", "remainder"):
             d = r.choice([2, 1])
             return self.mk(f"{_w(a, P_ATOM)}.{op}({d})", "float", a.null, P_ATOM, [a])
+        if re.search(r"\.(floor|ceil|sign|as_int64)\(\)\)*$", a.text) or re.search(r"( // | % |%/%|\.(mod|remainder)\()", a.text):
+            # integer-VALUED numerator: on a prepared SQLite connection floor()/ceil() return INTEGER, so `/` would be the
+            # integer division the property excludes ("integer / and %"): make the numerator a float on every backend
+            a = self.mk(f"{_w(a, P_MUL)} * 1.5", "float", a.null, P_MUL, [a])
         if budget >= 6 and r.random() < 0.25:
             b = self.num("float", budget - a.size - 3, nonnull)
             den = self.mk(f"({_w(b, P_ATOM)}.abs() + 1)", "float", b.null, P_ATOM, [b])
